@@ -45,8 +45,6 @@ PROP = dict(
         "enabled at any moment",
         "goroutine count: runtime fact, oracle go.client.goroutines (300 warm-up calls, then 3000/10000 calls, growth <= 8) and registry-leak "
         "(queries empty after every scenario); the theorem no_leak_model is about the registry only",
-        "demux does not state that the returned answer is the FIRST one delivered for the id (it is in the model — checkHistory and the "
-        "duplicate scripts exercise it — but no theorem)",
         "deadlock freedom beyond reader_never_blocks (e.g. Connection.reader blocked on the unbuffered resp channel when no Client reads it) is not modelled",
         "authentication path (authKey) not modelled; liveness observations: a stale `go reconnect()` spawned by an earlier failing Send can "
         "tear down a freshly re-established connection (guard only tests the status) — admitted by the model (reconnectStart with spawned > 0), "
@@ -54,8 +52,11 @@ PROP = dict(
     ],
     level="proof",
     level_text="Lean 4 theorems over a labelled transition system of the request path, for every reachable state / every enabled action "
-               "list, any number of callers and connections, unconstrained environment: demux (+ demux_own_answer, demux_not_other under "
-               "IdsDistinct), reader_never_blocks (inductive invariant: registered id => empty channel; pending send => empty channel, unique), "
+               "list, any number of callers and connections, unconstrained environment: demux, demux_first_answer (first delivered answer for the id after registration wins, "
+               "duplicate_dropped), demux_all_callers (+ demux_own_answer, demux_not_other under IdsDistinct), no_deadlock_client "
+               "(every unreturned call has an enabled own action that decreases its rank, nobody moves it backwards, a reader's channel send "
+               "never blocks, an idle reader accepts any packet), reconnect_bounded (<= 4 steps of the connection's own threads lead to a "
+               "Connected, writable, read connection — liveness under the four fairness assumptions F1-F4 stated in C12.lean) + call_can_succeed, reader_never_blocks (inductive invariant: registered id => empty channel; pending send => empty channel, unique), "
                "register_before_send, timeout_returns, no_leak_model, status_machine (+ _send_fails, _drop_reconnects), round_robin. "
                "The invariants are proved by case analysis over all 15 actions. Tie to the code: operation-order obligations regenerated "
                "from the Go source by a go/ast translator on every run, and histories of real concurrent executions (drops, reconnects, "
